@@ -184,6 +184,7 @@ class Registry:
         self.F = F
         self.trace = []
         self.arg_effects = []  # (name, args before, args after) of calls that changed the values they were given
+        self.namespace_effects = []   # (name, variables re-bound / bound / unbound by the call)
         self.calls_compared = 0
         self.results = []      # (name, args, result) for selected built-ins
         self.keep_results_of = set()
@@ -223,9 +224,24 @@ class Registry:
                 reg.trace.append([name, before])
             except Exception as ex:  # noqa: BLE001
                 reg.trace.append([name, ["unrecordable", type(ex).__name__]])
+            ns_before = None
+            try:
+                # the variables of the running program: a built-in is handed them to read the query's NAME and period - it
+                # does not assign (only statements do)
+                ns_before = {k: (id(v), type(v).__name__) for k, v in namespace.items()} if isinstance(namespace, dict) else None
+            except Exception:  # noqa: BLE001
+                pass
             try:
                 result = fn(datastore, namespace, *args, **kwargs)
             finally:
+                if ns_before is not None:
+                    try:
+                        ns_after = {k: (id(v), type(v).__name__) for k, v in namespace.items()}
+                        if ns_after != ns_before:
+                            changed = sorted(k for k in set(ns_before) | set(ns_after) if ns_before.get(k) != ns_after.get(k))
+                            reg.namespace_effects.append((name, changed, {k: (ns_before.get(k, ("-", "unbound"))[1], ns_after.get(k, ("-", "unbound"))[1]) for k in changed}))
+                    except Exception:  # noqa: BLE001
+                        pass
                 # what the call did to the values it was given (they may be bound to variables of the program)
                 if before is not None and name != "period_union":
                     try:
@@ -254,6 +270,7 @@ class Registry:
         self.trace = []
         self.results = []
         self.arg_effects = []
+        self.namespace_effects = []
 
     def bodies(self):
         """Code objects of the built-in bodies (the end of each entry's __wrapped__ chain)."""
